@@ -279,6 +279,20 @@ def receiveChecks (r : NRef) (port : Nat) (src : String) (d : Bytes) (attack : B
           | some p => q.timeout ≠ p.timeout && q.timeout ≠ r.now + ownPt
           | none => q.timeout ≠ r.now + ownPt)
         some s!"C15 peer expiry is not last-heard time + the configured peer timeout ({bad.map (fun q => (q.addr, q.timeout))} at time {r.now}, own timeout {ownPt})"
+      -- C02: a handshake datagram carries the node information in the clear only towards a node that enabled 'plain' as this node did
+      else if outs.any (fun (_, dst, b) => match b with
+          | 255 :: body =>
+            (match InitMsg.readFields ((body.drop 8).length + 1) (body.drop 8) {} with
+             | .ok (f, _) => (match f.payload.bind decodeNodeInfo with
+                 | some info => Bytes.toHex info.nodeId = after.id &&
+                     !(((r.cfgOf port "algos").splitOn ",").contains "plain" && ((r.cfgOf (portOf dst) "algos").splitOn ",").contains "plain") && (r.node (portOf dst)).isSome
+                 | none => false)
+             | .error _ => false)
+          | _ => false) then some "C02 a handshake datagram carries the node information unsealed although not both ends enabled plain"
+      -- C13: hub and router modes never learn from traffic
+      else if !(modeFlags (r.cfgOf port "mode") (r.cfgOf port "dev" = "tap")).1 &&
+          after.cache.any (fun (a, p, _) => !(before.cache.any (fun (a', p', _) => a' = a && p' = p))) then
+        some "C13 an address was learned from received traffic in a mode that never learns"
       -- C10: nothing received is relayed: non-handshake datagrams go back to the sender only
       else if outs.any (fun (_, dst, b) => b.head? ≠ some 255 && dst ≠ src && !b.isEmpty) then some "C10 a received datagram caused a non-handshake datagram to a third party (relaying)"
       else if tr.isSome && !outs.isEmpty then some "C10 a received payload datagram caused datagrams on the wire"
